@@ -52,3 +52,7 @@ def run(res, tier, seed):
         pass
     return D.run_family(res, "C11", "C11", cases, dcases,
                         rule="all 256 SGR codes x {M,m} and all 224 X10 codes with edge coordinates (detectOneMsg, width compared), huge numbers, reports embedded between random well-formed neighbours (Spec evaluated on real output), malformed near-misses (model equality); distinct = distinct (chunking, bytes)")
+
+
+def replay(res, path):
+    return D.replay_family(res, "C11", "C11", path)
